@@ -220,6 +220,33 @@ Proof.
   rewrite <- Hlen, le_encode_decode. reflexivity.
 Qed.
 
+(* ------------------------------------------------------------------ the length-checked string reader *)
+Lemma read_string_tr_put s rest : lenN s < two32 ->
+  read_string_tr (put_u32 (lenN s) ++ s ++ rest) = (Some (s, rest), [lenN s]).
+Proof.
+  intro H. unfold read_string_tr. rewrite read_u32_put, (N.mod_small _ _ H).
+  destruct (N.ltb_spec (lenN (s ++ rest)) (lenN s)) as [L|L].
+  - rewrite lenN_app in L. lia.
+  - rewrite read_exact_app. reflexivity.
+Qed.
+
+Lemma read_string_tr_some l s r al : read_string_tr l = (Some (s, r), al) ->
+  l = put_u32 (lenN s) ++ s ++ r /\ lenN s < two32 /\ al = [lenN s].
+Proof.
+  unfold read_string_tr. destruct (read_u32 l) as [[n r1]|] eqn:E; [|discriminate].
+  destruct (lenN r1 <? n); [discriminate|].
+  intro H. inversion H as [[H1 H2]]. clear H.
+  apply read_u32_some in E. destruct E as [-> L].
+  apply read_exact_some in H1. destruct H1 as [-> Hn]. subst n. auto.
+Qed.
+
+Lemma read_string_tr_none l al : read_string_tr l = (None, al) -> al = [].
+Proof.
+  unfold read_string_tr. destruct (read_u32 l) as [[n r1]|] eqn:E; [|intro H; inversion H; reflexivity].
+  destruct (N.ltb_spec (lenN r1) n) as [L|L]; [intro H; inversion H; reflexivity|].
+  intro H. inversion H as [[H1 H2]]. apply read_exact_none in H1. lia.
+Qed.
+
 (* ------------------------------------------------------------------ well-formed records *)
 Lemma deserialize_binary_tr_serialize c rest : wf_compiled c ->
   deserialize_binary_tr (serialize_compiled c ++ rest) =
@@ -231,10 +258,10 @@ Proof.
   rewrite <- app_comm_cons. cbn [read_u8].
   rewrite byte_eqb_refl. cbn [negb].
   rewrite <- !app_assoc.
-  rewrite read_u32_put, (N.mod_small _ _ Hn), read_exact_app.
-  rewrite read_u32_put, (N.mod_small _ _ Hs), read_exact_app.
+  rewrite read_string_tr_put by exact Hn.
+  rewrite read_string_tr_put by exact Hs.
   rewrite read_i64_put by exact Hl. rewrite read_i64_put by exact Ht.
-  rewrite read_u32_put, (N.mod_small _ _ Ha), read_exact_app.
+  rewrite read_string_tr_put by exact Ha.
   reflexivity.
 Qed.
 
@@ -249,29 +276,22 @@ Proof. intro H. rewrite <- (app_nil_r (serialize_compiled c)). apply deserialize
 Lemma deserialize_binary_sound data c : deserialize_binary data = Some c ->
   wf_compiled c /\ exists rest, data = serialize_compiled c ++ rest.
 Proof.
-  unfold deserialize_binary, deserialize_binary_tr. 
+  unfold deserialize_binary, deserialize_binary_tr.
   destruct (read_u8 data) as [[v r0]|] eqn:E0; [|discriminate].
   destruct (Byte.eqb v x01) eqn:Ev; cbn [negb]; [|discriminate].
-  destruct (read_u32 r0) as [[nlen r1]|] eqn:E1; [|discriminate].
-  destruct (read_exact r1 nlen) as [[name r2]|] eqn:E2; [|discriminate].
-  destruct (read_u32 r2) as [[slen r3]|] eqn:E3; [|discriminate].
-  destruct (read_exact r3 slen) as [[src r4]|] eqn:E4; [|discriminate].
+  destruct (read_string_tr r0) as [[[name r2]|] a1] eqn:E1; [|discriminate].
+  destruct (read_string_tr r2) as [[[src r4]|] a2] eqn:E2; [|discriminate].
   destruct (read_i64 r4) as [[lm r5]|] eqn:E5; [|discriminate].
   destruct (read_i64 r5) as [[ct r6]|] eqn:E6; [|discriminate].
-  destruct (read_u32 r6) as [[alen r7]|] eqn:E7; [|discriminate].
-  destruct (read_exact r7 alen) as [[ast r8]|] eqn:E8; [|discriminate].
+  destruct (read_string_tr r6) as [[[ast r8]|] a3] eqn:E7; [|discriminate].
   cbn [fst]. intro H. inversion H; subst c. clear H.
   apply byte_eqb_eq in Ev. subst v.
   unfold read_u8 in E0. destruct data as [|d data]; [discriminate|]. inversion E0; subst d r0. clear E0.
-  apply read_u32_some in E1. destruct E1 as [-> L1].
-  apply read_exact_some in E2. destruct E2 as [-> N2].
-  apply read_u32_some in E3. destruct E3 as [-> L3].
-  apply read_exact_some in E4. destruct E4 as [-> N4].
+  apply read_string_tr_some in E1. destruct E1 as (-> & L1 & _).
+  apply read_string_tr_some in E2. destruct E2 as (-> & L2 & _).
   apply read_i64_some in E5. destruct E5 as [-> R5].
   apply read_i64_some in E6. destruct E6 as [-> R6].
-  apply read_u32_some in E7. destruct E7 as [-> L7].
-  apply read_exact_some in E8. destruct E8 as [-> N8].
-  subst nlen slen alen.
+  apply read_string_tr_some in E7. destruct E7 as (-> & L7 & _).
   split.
   - unfold wf_compiled. cbn [c_name c_source c_ast c_last_modified c_compile_time]. auto.
   - exists r8. rewrite serialize_flat. cbn [c_name c_source c_ast c_last_modified c_compile_time].
@@ -301,6 +321,35 @@ Proof.
   - rewrite <- E, deserialize_binary_serialize_rest by exact H. reflexivity.
 Qed.
 
+(* the guarded writer: it emits the layout exactly when no field reaches 2^32 bytes *)
+Lemma serialize_checked_some c data : serialize_compiled_checked c = Some data ->
+  data = serialize_compiled c /\ lenN (c_name c) < two32 /\ lenN (c_source c) < two32 /\ lenN (c_ast c) < two32.
+Proof.
+  unfold serialize_compiled_checked.
+  destruct (N.leb_spec two32 (lenN (c_name c))); cbn [orb]; [discriminate|].
+  destruct (N.leb_spec two32 (lenN (c_source c))); cbn [orb]; [discriminate|].
+  destruct (N.leb_spec two32 (lenN (c_ast c))); cbn [orb]; [discriminate|].
+  intro E. inversion E. auto.
+Qed.
+
+Lemma C16_roundtrip_checked_proof : forall (gob : bytes -> option compiled) (c : compiled) (data : bytes),
+  i64_range (c_last_modified c) -> i64_range (c_compile_time c) ->
+  serialize_compiled_checked c = Some data -> deserialize_compiled gob data = Some c.
+Proof.
+  intros gob c data Hl Ht E. apply serialize_checked_some in E. destruct E as (-> & Hn & Hs & Ha).
+  apply C16_roundtrip_proof. unfold wf_compiled. auto.
+Qed.
+
+Lemma C16_oversize_refused_proof : forall c : compiled,
+  oversize c <-> serialize_compiled_checked c = None.
+Proof.
+  intro c. unfold oversize, serialize_compiled_checked.
+  destruct (N.leb_spec two32 (lenN (c_name c))); cbn [orb]; [split; auto|].
+  destruct (N.leb_spec two32 (lenN (c_source c))); cbn [orb]; [split; auto|].
+  destruct (N.leb_spec two32 (lenN (c_ast c))); cbn [orb]; [split; auto|].
+  split; [intros [X|[X|X]]; lia|discriminate].
+Qed.
+
 (* serialisations of well-formed records are prefix free *)
 Lemma serialize_prefix_free c c' t : wf_compiled c -> wf_compiled c' ->
   serialize_compiled c = serialize_compiled c' ++ t -> c = c' /\ t = [].
@@ -323,117 +372,29 @@ Proof.
   destruct E as [_ E]. apply app_eq_nil in E. destruct E. contradiction.
 Qed.
 
+(* every strict prefix of a serialisation is an error, whatever the gob decoder would say: the prefix
+   is empty or begins with the version byte, and such data never reaches gob *)
 Lemma C16_truncation_is_error_proof : forall (gob : bytes -> option compiled) (c : compiled) (p q : bytes),
   wf_compiled c -> serialize_compiled c = p ++ q -> q <> [] ->
-  deserialize_binary p = None /\
-  deserialize_compiled gob p = match p with [] => None | _ => gob p end.
+  deserialize_binary p = None /\ deserialize_compiled gob p = None.
 Proof.
   intros gob c p q H E Hq. pose proof (truncation_binary c p q H E Hq) as D.
-  split; [exact D|]. unfold deserialize_compiled. rewrite D. reflexivity.
-Qed.
-
-(* when the gob decoder rejects every stream that begins with the version byte, every strict prefix is an error *)
-Lemma C16_truncation_is_error_if_gob_rejects_proof : forall (gob : bytes -> option compiled) (c : compiled) (p q : bytes),
-  (forall d, gob (x01 :: d) = None) ->
-  wf_compiled c -> serialize_compiled c = p ++ q -> q <> [] -> deserialize_compiled gob p = None.
-Proof.
-  intros gob c p q G H E Hq.
-  destruct (C16_truncation_is_error_proof gob c p q H E Hq) as [_ ->].
+  split; [exact D|]. unfold deserialize_compiled. rewrite D.
   destruct p as [|v p]; [reflexivity|].
-  rewrite serialize_flat in E. cbn [app] in E. inversion E; subst v. apply G.
+  rewrite serialize_flat in E. cbn [app] in E. inversion E; subst v.
+  rewrite byte_eqb_refl. reflexivity.
 Qed.
 
-Lemma byte_of_N_eqb m b : Byte.eqb (byte_of_N m) b = (m mod 256 =? Byte.to_N b).
+(* more generally: data that begins with the version byte is decided by the binary reader alone *)
+Lemma C16_version_byte_never_reaches_gob_proof : forall (gob : bytes -> option compiled) (d : bytes),
+  deserialize_compiled gob (x01 :: d) = deserialize_binary (x01 :: d).
 Proof.
-  destruct (byte_eqb_spec (byte_of_N m) b) as [E|E]; destruct (N.eqb_spec (m mod 256) (Byte.to_N b)) as [F|F]; try reflexivity.
-  - exfalso. apply F. rewrite <- E. symmetry. apply to_N_byte_of_N.
-  - exfalso. apply E. rewrite <- (byte_of_N_to_N b), <- F. symmetry. apply byte_of_N_mod.
-Qed.
-
-Lemma mod32_mod8 n : (n mod two32) mod 256 = n mod 256.
-Proof. unfold two32. lia. Qed.
-
-(* the exact verdict on every strict prefix under the modelled part of the gob fallback: it is an
-   error except when the name length is 36 or 42 modulo 256 and at least two bytes survive, in which
-   case the result is the empty record, with no error *)
-Lemma C16_truncation_gob_fallback_proof : forall (c : compiled) (p q : bytes),
-  wf_compiled c -> serialize_compiled c = p ++ q -> q <> [] ->
-  lenN (c_name c) mod 256 <> 127 ->
-  deserialize_compiled gob_model p =
-    if (2 <=? lenN p) && ((lenN (c_name c) mod 256 =? 36) || (lenN (c_name c) mod 256 =? 42))
-    then Some empty_compiled else None.
-Proof.
-  intros c p q H E Hq H127.
-  destruct (C16_truncation_is_error_proof gob_model c p q H E Hq) as [_ ->].
-  rewrite serialize_flat in E.
-  destruct p as [|v p]; [reflexivity|].
-  cbn [app] in E. injection E as Ev E. subst v.
-  destruct p as [|b p].
-  - reflexivity.
-  - unfold put_u32 in E. cbn [le_encode app] in E. injection E as Eb _. subst b.
-    unfold gob_model, gob_verdict_of. rewrite byte_eqb_refl.
-    rewrite !byte_of_N_eqb, mod32_mod8.
-    change (Byte.to_N x24) with 36. change (Byte.to_N x2a) with 42. change (Byte.to_N x7f) with 127.
-    rewrite !lenN_cons.
-    destruct (N.leb_spec 2 (N.succ (N.succ (lenN p)))) as [L|L]; [|lia]. cbn [andb].
-    destruct (lenN (c_name c) mod 256 =? 36) eqn:E36; cbn [orb]; [reflexivity|].
-    destruct (lenN (c_name c) mod 256 =? 42) eqn:E42; cbn [orb]; [reflexivity|].
-    destruct (N.eqb_spec (lenN (c_name c) mod 256) 127) as [E127|E127]; [contradiction|reflexivity].
-Qed.
-
-(* ------------------------------------------------------------------ length prefixes wrap at 2^32 *)
-Lemma put_u32_wrap n : put_u32 (n + two32) = put_u32 n.
-Proof. unfold put_u32. f_equal. unfold two32. lia. Qed.
-
-Lemma C16_prefix_wrap_proof : forall c : compiled,
-  oversize c ->
-  deserialize_binary (serialize_compiled c) <> Some c /\
-  (forall gob, gob (serialize_compiled c) <> Some c -> deserialize_compiled gob (serialize_compiled c) <> Some c).
-Proof.
-  intros c Ho.
-  assert (D : deserialize_binary (serialize_compiled c) <> Some c).
-  { intro D. apply deserialize_binary_sound in D. destruct D as [(Hn & Hs & Ha & _) _].
-    unfold oversize in Ho. lia. }
-  split; [exact D|].
-  intros gob G. unfold deserialize_compiled.
-  destruct (serialize_compiled c) as [|b l] eqn:E; [discriminate|].
-  destruct (deserialize_binary (b :: l)) as [c'|] eqn:D'; [|exact G].
-  intro X. inversion X; subst c'. contradiction.
-Qed.
-
-(* a witness, never materialised: a name of exactly 2^32 zero bytes.  Its length prefix is four zero
-   bytes, its first 24 bytes are read as source length, timestamps and AST length, and the result is
-   the empty record, without an error *)
-Definition wrap_witness : compiled :=
-  mkCompiled (repeat x00 24 ++ repeat x00 (N.to_nat 4294967272)) [] 0%Z 0%Z [].
-
-Lemma wrap_witness_len : lenN (c_name wrap_witness) = two32.
-Proof.
-  unfold wrap_witness. cbn [c_name]. rewrite lenN_app, lenN_repeat, lenN_length, repeat_length. reflexivity.
+  intros gob d. unfold deserialize_compiled. rewrite byte_eqb_refl.
+  destruct (deserialize_binary (x01 :: d)); reflexivity.
 Qed.
 
 Lemma wf_empty_compiled : wf_compiled empty_compiled.
 Proof. unfold wf_compiled, empty_compiled, i64_range. cbn. repeat split; lia. Qed.
-
-Lemma C16_prefix_wrap_refuted_proof :
-  exists c : compiled,
-    lenN (c_name c) = two32 /\ put_u32 (lenN (c_name c)) = [x00; x00; x00; x00] /\
-    forall gob, deserialize_compiled gob (serialize_compiled c) = Some empty_compiled /\ empty_compiled <> c.
-Proof.
-  exists wrap_witness. split; [exact wrap_witness_len|]. split.
-  - rewrite wrap_witness_len. vm_compute. reflexivity.
-  - intro gob.
-    assert (E : serialize_compiled wrap_witness =
-                serialize_compiled empty_compiled ++ repeat x00 (N.to_nat 4294967272) ++ put_u32 0 ++ put_i64 0 ++ put_i64 0 ++ put_u32 0).
-    { rewrite (serialize_flat wrap_witness), wrap_witness_len.
-      unfold wrap_witness. cbn [c_name c_source c_ast c_last_modified c_compile_time].
-      rewrite lenN_nil.
-      replace (serialize_compiled empty_compiled) with (x01 :: put_u32 two32 ++ repeat x00 24) by (vm_compute; reflexivity).
-      rewrite <- !app_assoc. cbn [app]. rewrite !app_nil_r. rewrite <- !app_assoc. reflexivity. }
-    split.
-    + rewrite E. apply C16_roundtrip_trailing_proof. exact wf_empty_compiled.
-    + intro X. pose proof wrap_witness_len as L. rewrite <- X in L. discriminate L.
-Qed.
 
 (* ------------------------------------------------------------------ totality, index safety, allocation *)
 Lemma C16_deserialize_total_proof :
@@ -455,30 +416,66 @@ Proof.
   - apply deserialize_binary_sound.
 Qed.
 
-(* every buffer the reader asks for is below 2^32 bytes, and that is the only bound: the request is
-   made before the remaining input is looked at *)
-Lemma C16_alloc_bound_proof : forall (data : bytes) (n : N),
-  In n (deserialize_allocs data) -> n < two32.
+(* the buffers the reader asks for, all together, never exceed the input: each make([]byte, n) comes
+   after n <= r.Len(), and the bytes it is filled with are consumed *)
+Definition sumN (l : list N) : N := fold_right N.add 0 l.
+
+Lemma read_string_tr_budget l res al : read_string_tr l = (res, al) ->
+  match res with
+  | Some (s, r) => sumN al + 4 + lenN r = lenN l
+  | None => al = []
+  end.
 Proof.
-  intros data n. unfold deserialize_allocs, deserialize_binary_tr.
-  destruct (read_u8 data) as [[v r0]|]; [|intros []].
-  destruct (Byte.eqb v x01); cbn [negb]; [|intros []].
-  destruct (read_u32 r0) as [[nlen r1]|] eqn:E1; [|intros []].
-  apply read_u32_some in E1. destruct E1 as [_ L1].
-  destruct (read_exact r1 nlen) as [[name r2]|]; [|cbn; intuition; subst; assumption].
-  destruct (read_u32 r2) as [[slen r3]|] eqn:E3; [|cbn; intuition; subst; assumption].
-  apply read_u32_some in E3. destruct E3 as [_ L3].
-  destruct (read_exact r3 slen) as [[src r4]|]; [|cbn; intuition; subst; assumption].
-  destruct (read_i64 r4) as [[lm r5]|]; [|cbn; intuition; subst; assumption].
-  destruct (read_i64 r5) as [[ct r6]|]; [|cbn; intuition; subst; assumption].
-  destruct (read_u32 r6) as [[alen r7]|] eqn:E7; [|cbn; intuition; subst; assumption].
-  apply read_u32_some in E7. destruct E7 as [_ L7].
-  destruct (read_exact r7 alen) as [[ast r8]|]; cbn; intuition; subst; assumption.
+  destruct res as [[s r]|]; intro H.
+  - apply read_string_tr_some in H. destruct H as (-> & _ & ->).
+    rewrite !lenN_app, (lenN_length (put_u32 (lenN s))), put_u32_length. cbn [sumN fold_right]. lia.
+  - apply read_string_tr_none in H. exact H.
 Qed.
 
-Lemma C16_alloc_not_bounded_by_input_proof :
-  exists data : bytes, lenN data = 5 /\ deserialize_binary data = None /\ deserialize_allocs data = [4294967295].
-Proof. exists [x01; xff; xff; xff; xff]. vm_compute. repeat split; reflexivity. Qed.
+Lemma read_i64_len l z r : read_i64 l = Some (z, r) -> lenN l = 8 + lenN r.
+Proof.
+  intro H. apply read_i64_some in H. destruct H as [-> _].
+  rewrite lenN_app, (lenN_length (put_i64 z)), put_i64_length. reflexivity.
+Qed.
+
+Lemma sumN_app a b : sumN (a ++ b) = sumN a + sumN b.
+Proof. unfold sumN. induction a as [|x a IH]; cbn [app fold_right]; [reflexivity|rewrite IH; lia]. Qed.
+
+Lemma sumN_in n al : In n al -> n <= sumN al.
+Proof.
+  unfold sumN. induction al as [|x al IH]; cbn [In fold_right]; [intros []|].
+  intros [->|H]; [lia|]. apply IH in H. lia.
+Qed.
+
+Lemma C16_alloc_bounded_by_input_proof : forall data : bytes,
+  sumN (deserialize_allocs data) <= lenN data /\
+  (forall n, In n (deserialize_allocs data) -> n <= lenN data).
+Proof.
+  intro data.
+  assert (S : sumN (deserialize_allocs data) <= lenN data).
+  { unfold deserialize_allocs, deserialize_binary_tr.
+    destruct (read_u8 data) as [[v r0]|] eqn:E0; [|cbn; lia].
+    destruct (Byte.eqb v x01); cbn [negb]; [|cbn; lia].
+    unfold read_u8 in E0. destruct data as [|d data]; [discriminate|]. inversion E0; subst d r0. clear E0.
+    rewrite lenN_cons.
+    destruct (read_string_tr data) as [[[name r2]|] a1] eqn:E1; apply read_string_tr_budget in E1;
+      [|subst a1; cbn; lia].
+    destruct (read_string_tr r2) as [[[src r4]|] a2] eqn:E2; apply read_string_tr_budget in E2;
+      [|subst a2; cbn [snd]; rewrite sumN_app; cbn [sumN fold_right]; lia].
+    destruct (read_i64 r4) as [[lm r5]|] eqn:E5; [|cbn [snd]; rewrite sumN_app; lia].
+    apply read_i64_len in E5.
+    destruct (read_i64 r5) as [[ct r6]|] eqn:E6; [|cbn [snd]; rewrite sumN_app; lia].
+    apply read_i64_len in E6.
+    destruct (read_string_tr r6) as [[[ast r8]|] a3] eqn:E7; apply read_string_tr_budget in E7;
+      cbn [snd]; rewrite !sumN_app; [lia|subst a3; cbn [sumN fold_right]; lia]. }
+  split; [exact S|].
+  intros n Hin. apply sumN_in in Hin. lia.
+Qed.
+
+(* the input that made the unrepaired reader request 4294967295 bytes now requests nothing *)
+Lemma C16_alloc_regression_example_proof :
+  deserialize_binary [x01; xff; xff; xff; xff] = None /\ deserialize_allocs [x01; xff; xff; xff; xff] = [].
+Proof. vm_compute. split; reflexivity. Qed.
 
 (* ------------------------------------------------------------------ loading *)
 Lemma C16_compiled_equals_source_proof :
